@@ -93,6 +93,26 @@ impl Prop for C15 {
                 }
             })
         }));
+        v.push(Scope::new("with-legend", "rows over {\",a,|,space} up to length 5 with a quoted segment, alone and above a box, followed by a legend section", |f| {
+            enumr::strings_upto(&['"', 'a', '|', ' '], 5, &mut |s| {
+                if s.iter().filter(|c| **c == '"').count() >= 2 {
+                    let row: String = s.iter().collect();
+                    f(Case::s(format!("{}\n# Legend:\na = {{fill:red}}\n", row)));
+                    f(Case::s(format!("{}\n+--+\n|  |\n+--+\n# Legend:\na = {{fill:red}}\nb = {{stroke:blue}}", row)));
+                }
+            })
+        }));
+        v.push(Scope::new("long-segments", "one quoted segment of 1..70 and of 100, 127, 128, 129, 200, 255, 256, 257, 1000 columns (ASCII, and with a double-width character in it), followed by a bar and a word, above a row of bars", |f| {
+            let mut ws: Vec<usize> = (1..=70).collect();
+            ws.extend([100usize, 127, 128, 129, 200, 255, 256, 257, 1000]);
+            for w in ws {
+                for wide in [false, true] {
+                    let content = if wide && w >= 2 { format!("一{}", "a".repeat(w - 2)) } else { "a".repeat(w) };
+                    let row = format!("\"{}\" | x -", content);
+                    f(Case::s(format!("{}\n{}", row, "|".repeat(w + 9))));
+                }
+            }
+        }));
         let nb = if tier == Tier::Quick { 5 } else { 6 };
         v.push(Scope::new("rows-with-backslash", "rows over {\",\\,a,-,space} above a row of bars; only rows whose backslashes all lie outside the quoted regions and before no dangling quote are kept (the quantifier excludes a backslash inside quoted text)", move |f| {
             enumr::strings_upto(&['"', '\\', 'a', '-', ' '], nb, &mut |s| {
